@@ -30,36 +30,6 @@ Proof.
   - apply (season_structure_B3 D y); [lia | exact Hc | exact HD].
 Qed.
 
-(* first Sun-position query: if the Sun position at Epoch(jde0) fails with x, so does the call
-   (this pins the mean instant the iteration starts from) *)
-Theorem season_first_query (D : R -> Prop) k y x :
-  (0 <= k <= 3)%Z -> (-1000 <= y <= 3000)%Z -> CtorExact D -> D (jde0 k y) ->
-  Sun_apparent_geocentric_position Rops (epo (jde0 k y)) (VBool true) = VErr x ->
-  Sun_get_equinox_solstice Rops (VInt y) (VStr (season_name k)) = VErr x.
-Proof.
-  intros Hk Hy Hc HD Hs.
-  destruct (season_structure_all D k y Hk Hy Hc HD) as (F & Hcall & _ & _ & Hfail & _).
-  rewrite Hcall. change loop_fuel with (S (pred loop_fuel)).
-  apply Hfail; [ | exact Hs ].
-  rewrite Rabs_right; lra.
-Qed.
-
-(* exit step, stated on the loop function of the structure theorem *)
-Theorem season_exit_step (D : R -> Prop) k y :
-  (0 <= k <= 3)%Z -> (-1000 <= y <= 3000)%Z -> CtorExact D -> D (jde0 k y) ->
-  exists F : nat -> val R -> val R -> val R -> val R -> val R -> val R -> val R, Sun_get_equinox_solstice Rops (VInt y) (VStr (season_name k))
-      = F loop_fuel (VErr UnboundLocalError) (VFloat 1) (epo (jde0 k y))
-          (VErr UnboundLocalError) (VErr UnboundLocalError) (VErr UnboundLocalError) /\
-    (forall a c e la lo r, F 0%nat a (VFloat c) (epo e) la lo r = VErr OutOfFuel) /\
-    forall n a c e la lo r, Rabs c <= 25 / 10000000 -> D (e - c) ->
-       F (S n) a (VFloat c) (epo e) la lo r = epo (e - c).
-Proof.
-  intros Hk Hy Hc HD.
-  destruct (season_structure_all D k y Hk Hy Hc HD) as (F & Hcall & H0 & Hexit & _ & _).
-  exists F. repeat split; assumption.
-Qed.
-
-
 (* ---- the loop invariant, by induction on the fuel of the generated loop ---- *)
 Theorem season_loop_invariant (D : R -> Prop) k y lam bet rad :
   (0 <= k <= 3)%Z -> (-1000 <= y <= 3000)%Z -> SunModel D lam bet rad -> StepClosed D k lam ->
@@ -67,7 +37,7 @@ Theorem season_loop_invariant (D : R -> Prop) k y lam bet rad :
   SeasonGood D k lam (Sun_get_equinox_solstice Rops (VInt y) (VStr (season_name k))).
 Proof.
   intros Hk Hy (Hctor & Hsun & Hlam) Hclosed HD0.
-  destruct (season_structure_all D k y Hk Hy Hctor HD0) as (F & Hcall & H0 & Hexit & _ & Hstep).
+  destruct (season_structure_all D k y Hk Hy Hctor HD0) as (F & Hcall & H0 & Hexit & Hstep).
   rewrite Hcall. clear Hcall.
   assert (Hloop : forall n a c e la lo r, LoopInv D k lam c e ->
              SeasonGood D k lam (F n a (VFloat c) (epo e) la lo r)).
@@ -91,19 +61,14 @@ Qed.
 Lemma season_type_float y s : Sun_get_equinox_solstice Rops (VFloat y) (VStr s) = VErr TypeError.
 Proof. pyrun2. reflexivity. Qed.
 
-Lemma season_range_lo y : (y < -1000)%Z ->
-  Sun_get_equinox_solstice Rops (VInt y) (VStr "spring") = VErr ValueError.
+Lemma season_year_range k y : (0 <= k <= 3)%Z -> (y < -1000 \/ 3000 < y)%Z ->
+  Sun_get_equinox_solstice Rops (VInt y) (VStr (season_name k)) = VErr ValueError.
 Proof.
-  intros Hy.
-  assert ((y >=? -1000)%Z = false) by lia. assert ((y >=? 1000)%Z = false) by lia.
-  pyrun2. reflexivity.
-Qed.
-
-Lemma season_range_hi y : (3000 < y)%Z ->
-  Sun_get_equinox_solstice Rops (VInt y) (VStr "winter") = VErr ValueError.
-Proof.
-  intros Hy.
-  assert ((y >=? -1000)%Z = true) by lia. assert ((y <? 1000)%Z = false) by lia.
-  assert ((y >=? 1000)%Z = true) by lia. assert ((y <=? 3000)%Z = false) by lia.
-  pyrun2. reflexivity.
+  intros Hk Hy.
+  assert (k = 0 \/ k = 1 \/ k = 2 \/ k = 3)%Z as [-> | [-> | [-> | ->]]] by lia; unfold season_name;
+  (destruct Hy as [Hy | Hy];
+   [ assert ((y >=? -1000)%Z = false) by lia; assert ((y >=? 1000)%Z = false) by lia
+   | assert ((y >=? -1000)%Z = true) by lia; assert ((y <? 1000)%Z = false) by lia;
+     assert ((y >=? 1000)%Z = true) by lia; assert ((y <=? 3000)%Z = false) by lia ];
+   pyrun2; reflexivity).
 Qed.
